@@ -136,6 +136,7 @@ type Service struct {
 
 func NewService(options ServiceOptions) (*Service, error) {
 	setServiceOptionsDefault(&options)
+	msg.EnsureUDPPacketSize(options.Common.UDPPacketSize)
 
 	var webServer *httppkg.Server
 	if options.Common.WebServer.Port > 0 {
